@@ -202,7 +202,7 @@ def run(ck: Check) -> int:
     ck.assumptions = ["data names do not start with 'REDEFINES-'", "redefiners follow their base item directly (COBOL rule)",
                       "names of REDEFINES participants are unique in the record (D2), participants are not elementary OCCURS items (D34), "
                       "no REDEFINES directly inside an OCCURS group (D10)"]
-    ck.prove(["Stingray.Props.C01"])
+    ck.prove(["Stingray.Props.C01", "Stingray.Tie.C01"])
     explore(ck, 300 if ck.tier == "quick" else 6000)
     return ck.finish(search=lambda c: explore(c, 1500))
 
